@@ -21,7 +21,7 @@ RULE = ('two glob stores with cells (timed ledger process whose timestep 0.5/0.7
         'operations applied, >=1 with a cell update in flight or a second-generation division, >=20 logged '
         'invocations; distinct = distinct case spec')
 PLAN = {'quick': {'n': 2000, 'min_cases': 400}, 'thorough': {'n': 60000, 'min_cases': 6000}}
-REQUIRED_ORACLES = ['no_exception', 'no_invocation_after_death', 'starts_at_creation', 'schedule_contiguous',
+REQUIRED_ORACLES = ['no_exception', 'derivers_first_in_order', 'no_invocation_after_death', 'starts_at_creation', 'schedule_contiguous',
                     'steps_once_per_phase', 'derived_values', 'published_matches_hierarchy', 'composite_written_back',
                     'rebuilt_engine_continues']
 ANCHORS = ['vivarium.core.engine:Engine.apply_update', 'vivarium.core.engine:Engine._delete_path',
@@ -82,7 +82,7 @@ def run(spec):
 
     emits = [(i, ev) for i, ev in enumerate(m.events) if ev[0] == 'emit' and ev[1] == 'history']
     walks = [(ev[2], {w[1]: w for w in ev[4]}) for i, ev in emits]          # (time, {id: (path,id,tag,kind)})
-    cellish = lambda tag: tag.rsplit('.', 1)[-1] in ('led', 'f1', 'f2', 'drv')
+    cellish = lambda tag: tag.rsplit('.', 1)[-1] in ('led', 'f1', 'f2', 'drv', 'drv2')
     # existence timeline
     born, died, moved_at = {}, {}, {}
     prev = {}
@@ -141,10 +141,19 @@ def run(spec):
     prev_w = {}
     for (i, ev), (t, w) in zip(emits, walks):
         ran = {}
+        order = []
         for x in m.events[prev_i + 1:i]:
             if x[0] == 'invoke' and x[1] == 'step' and isinstance(x[2], tuple) and len(x[2]) == 2:
                 ran[x[2][1]] = ran.get(x[2][1], 0) + 1
+                order.append(x[2][0])
                 V.check('step_timestep_zero', x[4] == 0, lambda: ('step invoked with timestep %r' % x[4],))
+        # steps without flow entries (derivers) run first, one at a time, in declaration order
+        kinds = [tg.rsplit('.', 1)[-1] for tg in order]
+        last_der = max([k for k, kd in enumerate(kinds) if kd in ('drv', 'drv2')], default=-1)
+        first_flow = min([k for k, kd in enumerate(kinds) if kd in ('f1', 'f2')], default=10 ** 9)
+        pairs_ok = all(order.index(tg[:-1]) < k for k, tg in enumerate(order) if tg.endswith('.drv2') and tg[:-1] in order)
+        V.check('derivers_first_in_order', last_der < first_flow and pairs_ok,
+                lambda: ('derivers must run before the flow steps and in declaration order (phase at t=%r)' % t, order))
         stats['phases'] += 1
         for iid, rec in w.items():
             if rec[3] != 'step' or not cellish(rec[2]):
@@ -170,6 +179,12 @@ def run(spec):
                 path = tuple(spec['base']) + (port, key)
                 f1 = [iid for iid, rec in w.items() if rec[0] == path + ('f1',)]
                 f2 = [iid for iid, rec in w.items() if rec[0] == path + ('f2',)]
+                d1 = [iid for iid, rec in w.items() if rec[0] == path + ('drv',)]
+                d2 = [iid for iid, rec in w.items() if rec[0] == path + ('drv2',)]
+                if d1 and d2 and ran.get(d1[0]) == 1 and ran.get(d2[0]) == 1:
+                    V.check('derived_values', st.get('tri') == 3 * st.get('n') and st.get('tri2') == 3 * st.get('n') + 1,
+                            lambda: ('row at t=%r, cell %s: n=%r tri=%r tri2=%r (derivers did not run one after the other on this batch)' % (
+                                t, key, st.get('n'), st.get('tri'), st.get('tri2'))))
                 if f1 and f2 and ran.get(f1[0]) == 1 and ran.get(f2[0]) == 1:
                     V.check('derived_values', st.get('twice') == 2 * st.get('n') and st.get('quad') == 4 * st.get('n'),
                             lambda: ('row at t=%r, cell %s: n=%r twice=%r quad=%r (steps did not see this batch / ran out of order)' % (
